@@ -205,6 +205,26 @@ theorem leaf_updater_never_raises (reg : Reg) (n : NodeRec) (c : KVs) (name : St
     stepUpdater reg n c = .ok { n with updater := accessName reg.updaters name } := by
   unfold stepUpdater; simp [hu, supportDefaults]
 
+/-- **A declaration that names no updater leaves the declared one in force**: after a declaration without
+`_updater` the node's updater is what it was when that was a (truthy) updater, and the default updater only when
+none had been declared yet — so a variable declared `set` by its writer and with a bare `_default` by a reader
+keeps `set`, whichever of the two is listed last (the listing order of compatible declarations is moot: C04). -/
+theorem leaf_updater_kept (reg : Reg) (n n' : NodeRec) (c : KVs)
+    (hno : KV.lookup "_updater" c = Option.none) (h : applyLeaf reg n c = .ok n') :
+    n'.updater = if n.updater.truthy then n.updater else .str "_default" := by
+  obtain ⟨n1, n2, n3, n4, n5, h1, h2, h3, h4, h5, rfl⟩ := applyLeaf_ok h
+  have e1 := (stepUnits_default h1).2.2.2
+  have e2 := (stepSerializer_default h2).2.2.2.1
+  have e3 := (stepValue_default h3).2.2
+  have e4 : n4 = n3 := by
+    unfold stepUpdater at h4
+    simp only [hno] at h4
+    injection h4 with h4; exact h4.symm
+  have e5 := (stepProperties_default h5).2.2.2
+  simp only [stepEmit, e5, stepFill, e4, e3]
+  simp [stepDefault, e2, e1]
+  cases KV.lookup "_default" c <;> simp [e2, e1]
+
 /-- the same for `_divider`, on any node (leaf or branch) -/
 theorem divider_never_raises (reg : Reg) (n : NodeRec) (name : String) :
     applySpecial reg n [("_divider", .str name)]
